@@ -205,7 +205,7 @@ fn check_case(ctx: &Ctx, case: &Case, cfg_name: &str, cfg: &[&str], args: &[&str
             return;
         }
     }
-    let def = format!("f = (x, y) => {}", case.body);
+    let def = format!("f = (x, y) => ({})", case.body);
     let d = orig.run(&def);
     ctx.count(1);
     if !d.is_ok() {
@@ -326,7 +326,7 @@ fn emit_input(sess: &Session, name: &str) -> Result<String, String> {
 
 /// The real pipeline `blots p1 | blots p2` for one function.
 fn check_pipeline(ctx: &Ctx, case: &Case, cfg_name: &str, cfg: &[&str], args: &[&str]) {
-    let p1 = format!("{}\noutput f = (x, y) => {}\n", cfg.join("\n"), case.body);
+    let p1 = format!("{}\noutput f = (x, y) => ({})\n", cfg.join("\n"), case.body);
     let calls: Vec<String> = args.iter().flat_map(|a| args.iter().map(move |b| format!("inputs.f({}, {})", a, b))).collect();
     // in-process expectation: each call separately (a failing call is skipped in p2)
     let mut orig = Session::new();
@@ -334,7 +334,7 @@ fn check_pipeline(ctx: &Ctx, case: &Case, cfg_name: &str, cfg: &[&str], args: &[
     for line in cfg {
         orig.run(line);
     }
-    if !orig.run(&format!("f = (x, y) => {}", case.body)).is_ok() {
+    if !orig.run(&format!("f = (x, y) => ({})", case.body)).is_ok() {
         return;
     }
     let mut expected = vec![];
@@ -388,7 +388,7 @@ pub fn run(ctx: &Ctx, replay: Option<&J>) -> i32 {
         for l in &cfg_refs {
             s.run(l);
         }
-        s.run(&format!("f = (x, y) => {}", case.body));
+        s.run(&format!("f = (x, y) => ({})", case.body));
         println!("body: {}\nemitted: {:?}", case.body, emit(&s, "f"));
         return if ctx.violation_count() > 0 {
             println!("VIOLATION property=C05 replay=<replayed>");
@@ -457,7 +457,7 @@ pub fn run(ctx: &Ctx, replay: Option<&J>) -> i32 {
     ctx.set("function_x_config_cases", json!(jobs.len()));
     ctx.set("generator", json!({"states": stats.states, "transitions": stats.transitions, "complete_trees": stats.complete}));
     for c in cases.iter().step_by(cases.len() / 6 + 1) {
-        ctx.sample(json!({"function": format!("f = (x, y) => {}", c.body), "class": c.class}));
+        ctx.sample(json!({"function": format!("f = (x, y) => ({})", c.body), "class": c.class}));
     }
     ctx.require_outcome("function-with-successful-calls", 1000);
     ctx.require_outcome("function-all-calls-fail", 10);
